@@ -55,7 +55,12 @@ def regexes_for(rnd, mods):
     """(kind, pattern) drawn from the graph's own names."""
     names = [m for m in mods if m != "r"]
     m = rnd.choice(names)
-    k = rnd.choice(["anchored", "prefix", "alt", "class", "suffix", "with_subs", "nomatch", "leaf", "inner", "alt_ungrouped", "alt_ungrouped", "optional", "optional_mid", "plus", "dot_any", "icase", "lookahead", "unicode_class"])
+    k = rnd.choice(["anchored", "prefix", "alt", "class", "suffix", "with_subs", "nomatch", "leaf", "inner", "alt_ungrouped", "alt_ungrouped", "optional", "optional_mid", "plus", "dot_any", "icase", "lookahead", "unicode_class", "wild_alt", "wild_alt"])
+    if k == "wild_alt":
+        # ungrouped alternation after a leading wildcard: '.*x$|frag' - the second branch is matched from the start too
+        m2 = rnd.choice(names)
+        cut = rnd.randint(1, max(1, len(m2) - 1))
+        return k, ".*" + re.escape(m.rsplit(".", 1)[-1]) + "$|" + re.escape(m2[cut:])
     if k == "optional":
         # a quantifier directly after a literal: matches the name with and without its last character
         return k, re.escape(m) + "?" + rnd.choice(["$", "", r"(\..*)?$"])
